@@ -3,9 +3,10 @@ import PlzVerif.Model.RemoteCache
 import PlzVerif.Generated.C13
 /-!
 Line-protocol driver for C13 (grammar in harness/cmd/c13/main.go).
-  h <outs> <fault>              HTTP: Store, then a later Retrieve.  fault: - | s (store transport cut) | r (retrieve body cut)
-  c <n|a> <rfail 0|1> <outs> <stored>   command cache: what the store command left (measured: - | <entries>.<cut 0|1>),
-                                then a later Retrieve whose command exits non-zero when rfail = 1
+  h <outs> <fault>              HTTP: Store, then a later Retrieve.  fault: - | s (store transport cut) | r<pct> (retrieve body cut to pct%)
+  c <kind> <rfail 0|1> <outs> <stored>  command cache: kind n | a (naive / commit-on-success store command), nf<bytes> | af<bytes>
+                                (the same, but the command stops after <bytes> and exits 1); what the store command left
+                                (measured: - | <entries>.<cut 0|1>.<end marker 0|1>), then a later Retrieve whose command exits non-zero when rfail = 1
   outs  = output;output;…   output = item,item,…   item = <o|d|l|v|u>:<hexname>:<size>
 -/
 open PlzVerif PlzVerif.RemoteCache PlzVerif.Proto
@@ -57,43 +58,58 @@ def step (line : String) : String :=
   | ["h", outs, fault] =>
     match parseOuts outs with
     | some outs =>
-      if fault ≠ "-" ∧ fault ≠ "s" ∧ fault ≠ "r" then "bad-op" else
+      let isR : Bool := fault.startsWith "r" && (match (fault.drop 1).toNat? with | some p => decide (1 ≤ p) && decide (p ≤ 75) | none => false)
+      if fault ≠ "-" ∧ fault ≠ "s" ∧ isR = false then "bad-op" else
       let stored := httpStored httpContinues httpPropagates (fault ≠ "s") outs
-      "committed=" ++ toString stored.isSome ++ " later=" ++ showRes (httpRetrieve stored (fault ≠ "r"))
+      "committed=" ++ toString stored.isSome ++ " later=" ++ showRes (httpRetrieve stored (!isR))
     | none => "bad-op"
   | ["c", k, rfail, outs, stored] =>
     match parseOuts outs with
     | some outs =>
-      if (k ≠ "n" ∧ k ≠ "a") ∨ (rfail ≠ "0" ∧ rfail ≠ "1") then "bad-op" else
-      let kind := if k = "n" then CmdKind.naive else CmdKind.atomic
-      -- the measured state of the store: nothing, or how many entries are there and whether the last is cut
+      let failing : Bool := (k.startsWith "nf" || k.startsWith "af") && ((k.drop 2).toNat?).isSome
+      if (k ≠ "n" ∧ k ≠ "a" ∧ failing = false) ∨ (rfail ≠ "0" ∧ rfail ≠ "1") then "bad-op" else
+      let kind := if k.startsWith "n" then CmdKind.naive else CmdKind.atomic
+      -- the measured state of the store: nothing, or how many entries are there, whether the last is cut, and whether
+      -- tar's end marker follows them
       let r := cmdWrite ⟨[], false⟩ outs
-      let meas? : Option (Option (Nat × Bool)) :=
+      let bit (x : String) : Option Bool := if x = "0" then some false else if x = "1" then some true else none
+      let meas? : Option (Option (Nat × Bool × Bool)) :=
         if stored = "-" then some none else
         match stored.splitOn "." with
-        | [a, c] =>
-          match a.toNat?, c with
-          | some a, "0" => some (some (a, false))
-          | some a, "1" => some (some (a, true))
-          | _, _ => none
+        | [a, c, m] =>
+          match a.toNat?, bit c, bit m with
+          | some a, some c, some m => some (some (a, c, m))
+          | _, _, _ => none
         | _ => none
       match meas? with
       | none => "bad-op"
       | some meas =>
-        let st : Option (List Tok) :=
+        let st : Option Stored :=
           match meas with
-          | none => if r.2 then none else (if r.1.toks.isEmpty then some [] else none)
-          | some (a, c) => cmdStored kind outs a c false
+          | none => none
+          | some (a, c, m) =>
+            -- a commit-on-success command that lost nothing to the kill holds the finished archive; otherwise what was measured
+            if kind == CmdKind.atomic then cmdStored kind outs failing a c m false
+            else cmdStored kind outs failing a c m true
+        let finished := (r.1.toks.length, false, !r.1.broken)
         -- is the measurement one of the states the model allows?
-        let full := (r.1.toks.length, r.1.broken)
         let allowed : Bool :=
           match meas with
-          | none => r.2                                  -- nothing stored: only after a fault
-          | some (a, c) =>
-            if !r.2 then (a, c) == (r.1.toks.length, false)            -- no fault: the whole archive
-            else if kind == CmdKind.atomic then (a, c) == full        -- the kill lost: everything written so far
-            else a ≤ r.1.toks.length                                  -- naive: any prefix
-        (if allowed then "" else "unexpected-store-state ") ++ "later=" ++ showRes (cmdRetrieve st (rfail = "0"))
+          | none => r.2 || failing                -- nothing stored: only after a fault or a failed command
+          | some (a, c, m) =>
+            if failing then kind == CmdKind.naive && a ≤ r.1.toks.length && (!m || (a, c, m) == finished)
+            else if !r.2 then (a, c, m) == finished                       -- no fault: the whole archive
+            else if kind == CmdKind.atomic then
+              -- the kill lost: everything written so far (a stuck writer leaves its last entry cut)
+              (a, c, m) == (r.1.toks.length, r.1.broken, !r.1.broken)
+            else a ≤ r.1.toks.length && (!m || ((a, c) == (r.1.toks.length, false) && !r.1.broken))
+        let stFinal : Option Stored :=
+          -- for a stuck writer the last entry is short in the stream itself: the model already has it as `full = false`
+          match meas, st with
+          | some (a, _, _), _ =>
+            if r.1.broken && a == r.1.toks.length then some ⟨r.1.toks, false⟩ else st
+          | none, _ => st
+        (if allowed then "" else "unexpected-store-state ") ++ "later=" ++ showRes (cmdRetrieve stFinal (rfail = "0"))
     | none => "bad-op"
   | _ => "bad-op"
 
